@@ -171,6 +171,9 @@ func (e *Engine) LookupMethod(t types.Type, meth *types.Func) *ssa.Function {
 type fnInfo struct {
 	index map[ssa.Value]int
 	n     int
+	// raceSkip: loads and stores made by this function are not race-checked (pure computation inside the standard
+	// library on state that is private to one compressor / hash / formatter; checking them only costs time)
+	raceSkip bool
 }
 
 func (e *Engine) info(fn *ssa.Function) *fnInfo {
@@ -178,6 +181,12 @@ func (e *Engine) info(fn *ssa.Function) *fnInfo {
 		return fi.(*fnInfo)
 	}
 	fi := &fnInfo{index: map[ssa.Value]int{}}
+	if fn.Pkg != nil {
+		switch fn.Pkg.Pkg.Path() {
+		case "compress/flate", "math/bits", "sort", "strconv", "unicode", "unicode/utf8", "hash/crc32", "crypto/sha1", "encoding/base64":
+			fi.raceSkip = true
+		}
+	}
 	add := func(v ssa.Value) {
 		if _, ok := fi.index[v]; !ok {
 			fi.index[v] = fi.n
